@@ -21,6 +21,12 @@ def make_frame(dim: int, three: bool, params: dict):
     from EasyFEA import Mesher, Models, ElemType
     from EasyFEA.Geoms import Domain, Point, Line
 
+    # beams are named from a process-global counter and the mesh tags carry those names: start every frame at
+    # "beam0" so that a run does not depend on how many frames the process built before (replay determinism)
+    from EasyFEA.Models.Beam._beam import _Beam
+
+    if hasattr(_Beam, "_Beam__nBeam"):
+        _Beam._Beam__nBeam = -1
     mesher = Mesher()
     section = mesher.Mesh_2D(Domain(Point(-0.5 * params["b"], -0.5 * params["h"]), Point(0.5 * params["b"], 0.5 * params["h"])))
     L = params["L"]
